@@ -2,6 +2,7 @@
 #include <sys/time.h>
 #include <stdio.h>
 #include <stdlib.h>
+#include <string.h>
 
 #include "events.h"
 #include "http.h"
@@ -59,8 +60,11 @@ shim_http_request(void * addrs, const char * method, const char * path, size_t n
     const char ** hn, const char ** hv, const uint8_t * body, size_t bodylen, size_t maxrlen,
     shim_http_cb cb, void * cookie)
 {
-	struct http_request R;
+	struct http_request * R;
 	struct req * r;
+	char * m, * pa;
+	char ** hns = NULL, ** hvs = NULL;
+	struct http_header * hdrs = NULL;
 	size_t i;
 
 	if ((r = malloc(sizeof(struct req))) == NULL)
@@ -68,20 +72,59 @@ shim_http_request(void * addrs, const char * method, const char * path, size_t n
 	r->cb = cb;
 	r->cookie = cookie;
 	r->hdrs = NULL;
-	if (nh > 0 && (r->hdrs = malloc(nh * sizeof(struct http_header))) == NULL)
+
+	/*
+	 * http.h: "The provided request body buffer (if any) must remain valid
+	 * until the callback is invoked" -- nothing else has to.  The request
+	 * structure, the method, the path, the header array and every header
+	 * string are exact-size heap copies which are overwritten and released
+	 * as soon as http_request() has returned.
+	 */
+	if ((R = malloc(sizeof(struct http_request))) == NULL)
 		abort();
-	for (i = 0; i < nh; i++) {
-		r->hdrs[i].header = hn[i];
-		r->hdrs[i].value = hv[i];
+	if ((m = strdup(method)) == NULL || (pa = strdup(path)) == NULL)
+		abort();
+	if (nh > 0) {
+		if ((hdrs = malloc(nh * sizeof(struct http_header))) == NULL ||
+		    (hns = malloc(nh * sizeof(char *))) == NULL ||
+		    (hvs = malloc(nh * sizeof(char *))) == NULL)
+			abort();
 	}
-	R.method = method;
-	R.path = path;
-	R.nheaders = nh;
-	R.headers = r->hdrs;
-	R.bodylen = bodylen;
-	R.body = body;
-	if ((r->h = http_request(addrs, &R, maxrlen, callback, r)) == NULL) {
-		free(r->hdrs);
+	for (i = 0; i < nh; i++) {
+		if ((hns[i] = strdup(hn[i])) == NULL || (hvs[i] = strdup(hv[i])) == NULL)
+			abort();
+		hdrs[i].header = hns[i];
+		hdrs[i].value = hvs[i];
+	}
+	R->method = m;
+	R->path = pa;
+	R->nheaders = nh;
+	R->headers = hdrs;
+	R->bodylen = bodylen;
+	R->body = body;
+	r->h = http_request(addrs, R, maxrlen, callback, r);
+
+	/* The application re-uses its request object for something else. */
+	memset(m, 'Z', strlen(m));
+	memset(pa, 'Z', strlen(pa));
+	for (i = 0; i < nh; i++) {
+		memset(hns[i], 'Z', strlen(hns[i]));
+		memset(hvs[i], 'Z', strlen(hvs[i]));
+		free(hns[i]);
+		free(hvs[i]);
+	}
+	if (nh > 0) {
+		memset(hdrs, 0x5a, nh * sizeof(struct http_header));
+		free(hdrs);
+		free(hns);
+		free(hvs);
+	}
+	memset(R, 0x5a, sizeof(struct http_request));
+	free(R);
+	free(m);
+	free(pa);
+
+	if (r->h == NULL) {
 		free(r);
 		return (NULL);
 	}
